@@ -64,7 +64,8 @@ TKinds == {"ptr-struct", "ptr-slice", "nil", "struct", "nilptr-struct", "nilptr-
            "ptr-slice-ptr", "ptr-ptr-struct", "slice", "ptr-array", "ptr-iface", "ptr-func", "ptr-chan"}
 \* (descriptor, type name): anonymous struct types and the declared types of the harness catalogue
 TDescs == { <<<<1, 3>>, <<>>>>, <<<<3>>, <<>>>>, <<<<2, 3>>, <<>>>>, <<<<1, 3>>, B("T")>>, <<<<3>>, B("FooBar")>>, <<<<1, 4>>, B("Srv")>>,
-            <<<<24, 25>>, B("Conf")>>, <<<<26, 25>>, B("Conf")>> }    \* two declared types of the same name, one with a tag
+            <<<<24, 25>>, B("Conf")>>, <<<<26, 25>>, B("Conf")>>,
+            <<<<23, 24>>, <<>>>>, <<<<23, 24, 25>>, <<>>>> }        \* an embedded struct in front of a tagged field (and of a field the tag could be confused with)    \* two declared types of the same name, one with a tag
 TBlocks == { [type |-> B(ty), name |-> nm, ents |-> es] : ty \in {"t", "foo_bar", "srv", "conf"}, nm \in {<<>>, B("n")},
              es \in { <<>>, <<Ent(B("x"), IntV(1))>>, <<Ent(B("x"), StrV(B("s")))>>, <<Ent(B("y"), IntV(1))>>, <<Ent(B("listen"), IntV(1))>>,
                       <<Ent(B("port"), IntV(1)), Ent(B("listen"), IntV(7))>> } }
@@ -93,6 +94,8 @@ RECURSIVE BJ(_)
 BJ(b) == [type |-> b.type, name |-> b.name,
           ents |-> [i \in 1..Len(b.ents) |-> [k |-> b.ents[i].k, kind |-> b.ents[i].kind, v |-> ValJ(b.ents[i].v),
                                                b |-> IF b.ents[i].kind = "blk" THEN <<BJ(b.ents[i].b[1])>> ELSE <<>>]]]
+RECURSIVE SetToSeqT(_)
+SetToSeqT(S) == IF S = {} THEN <<>> ELSE LET x == CHOOSE y \in S : TRUE IN <<x>> \o SetToSeqT(S \ {x})
 T == TOf(d, tn)
 \* what the whole Bind call must do for the chosen target kind and binding kind
 TargetOk == (bk = "struct" /\ tk = "ptr-struct") \/ (bk = "slice" /\ tk = "ptr-slice")
@@ -102,6 +105,7 @@ Case == [ fam |-> "bind", tk |-> tk, bk |-> bk, nblk |-> nblk, tname |-> tn, des
           expect |-> ExpectCall,
           tv |-> IF ExpectCall = "nil" /\ nblk > 0 THEN TvJ(Target(T, blk)) ELSE <<>>,
           wr |-> IF ExpectCall = "nil" /\ nblk > 0 THEN WrJ(Written(T, blk)) ELSE <<>>,
+          tagged |-> IF ExpectCall = "any" THEN SetToSeqT({ [i |-> p[1], v |-> ValJ(p[2])] : p \in TagStored(T, blk) }) ELSE <<>>,
           nt |-> (Len(blk.ents) >= 2 \/ tk # "ptr-struct"),
           sens |-> (Cardinality({ i \in 1..Len(blk.ents) : ExpectEnt(T, blk.ents[i]) = "error" }) >= 2 \/ Collides(T, blk)) ]
 Complete == (Scope = "fields" /\ phase >= 1) \/ (Scope = "targets" /\ phase = 2)
